@@ -10,7 +10,7 @@ use crate::tir;
 use crate::tir::interpret::{EvaluatedValue, StringKind};
 use crate::typemap::{NamedType, PrimitiveType, TypeKind, TypeSpace};
 use crate::typeutil;
-use quick_xml::events::{BytesStart, BytesText, Event};
+use quick_xml::events::{BytesStart, Event};
 use std::collections::HashMap;
 use std::fmt;
 use std::io;
@@ -182,7 +182,7 @@ impl SimpleValue {
                     tag.push_attribute(("notr", "true"));
                 }
                 writer.write_event(Event::Start(tag.borrow()))?;
-                writer.write_event(Event::Text(BytesText::new(s)))?;
+                writer.write_event(Event::Text(xmlutil::make_text(s)))?;
                 writer.write_event(Event::End(tag.to_end()))
             }
             _ => xmlutil::write_tagged_str(writer, tag_name, self.to_string()),
